@@ -24,7 +24,8 @@ func init() {
 			"D5 the scanner goroutine is not abandoned: it closes the token queue after its loop, and ParseSource registers, before anything that can panic, a deferred drain that reads the queue until it is closed; " +
 			"D6 every loop of the parser and scanner is in a terminating (or blocking-read) form." +
 			" Also: the functions that build a diagnostic take constant-bound slices only of operands whose length an enclosing condition establishes; between the test of the bound and the matchers nothing moves the cursor; the matcher sees the whole rest of the input; parser state is re-created per parse." +
-			" Round 7: an index guard that compares the index with the length excludes the length itself (all functions of the package, closures included).",
+			" Round 7: an index guard that compares the index with the length excludes the length itself (all functions of the package, closures included)." +
+			" Rounds 8-9: the value handed to the token constructor has not passed through a function that edits inside the text; an AddValue on a bounded collection is not under a guard that admits the capacity; an array indexed by an enumeration covers its largest constant.",
 		NotDecided: "absence of every other runtime error on arbitrary input, the line/column arithmetic of the diagnostic, stack depth (recursion depth equals input nesting, unbounded by design).",
 		Run:        runC12,
 	})
